@@ -489,6 +489,10 @@ func (c *Ctx) finish(kf *KnownFile, verifDir string, start time.Time, seed int, 
 		return 2
 	}
 
+	if d := os.Getenv("XJSCHECK_DUMP"); d != "" {
+		ab, _ := json.MarshalIndent(c.Obl, "", " ")
+		os.WriteFile(d, ab, 0o644)
+	}
 	fmt.Printf("property=%s tier=%s rules=%d obligations=%d discharged=%d known=%d violated=%d unresolved=%d wall=%.1fs\n",
 		c.Property, c.Tier, len(order), nObl, nDis, nKnown, nViol, nUnres, time.Since(start).Seconds())
 	for _, s := range order {
